@@ -6,6 +6,51 @@ from rules import table as TB
 from props import common
 
 
+def zero_hashes_alike(rep, F, rule='HASH-ZERO'):
+    """necessary for agreement: every zero (whatever its scale) feeds the same bytes - on each path
+    where int_val.is_zero() holds, the hashed datum is the plain decimal string of the integer,
+    neither trimmed nor extended"""
+    n = 0
+    for fn in common.hash_entries(F):
+        key = fn.key + ':zero-any-scale'
+        try:
+            pe = TB.PathEnum(F, fn, max_paths=200)
+            paths = pe.run()
+        except TB.Undecided as e:
+            rep.undecided(rule, key, 'paths not enumerable: %s' % e, fn.where())
+            continue
+        n += 1
+        bad = []
+        seen = 0
+        for (atoms, out), eff in zip(paths, pe.effects):
+            vals = {}
+            consistent = True
+            zero = None
+            for term, (rel, v) in atoms:
+                truth = not (rel == 'eq' and v == 0)
+                k = TB.show(TB.strip_refs(term))
+                if k in vals and vals[k] != truth:
+                    consistent = False
+                vals[k] = truth
+                if TB.is_call(term, r'Zero::is_zero$|BigInt::is_zero$') and TB.mentions(TB.strip_refs(term), TB.T('field', TB.T('param', 1), 'int_val')):
+                    zero = truth
+            if not consistent or zero is not True:
+                continue
+            for name, args in eff:
+                if re.search(r'hash::Hash::hash$|Hash>::hash$|Hasher::write', name) and args:
+                    seen += 1
+                    datum = TB.show(TB.strip_refs(args[0]))
+                    if datum != 'to_str_radix(arg1.int_val,10)':
+                        bad.append((sorted(k for k, tv in vals.items() if tv and 'is_zero' not in k), datum[:120]))
+        if bad:
+            rep.violation(rule, key, 'a zero is hashed differently depending on its scale: on the zero path under %s the hashed datum is %s, not the plain digit string "0"' % (bad[0][0], bad[0][1]), fn.where())
+        elif seen == 0:
+            rep.undecided(rule, key, 'no path establishes int_val.is_zero() before hashing: the zero clause is not structural in this shape', fn.where())
+        else:
+            rep.ok(rule, key, 'on all %d zero paths the hashed datum is the unmodified digit string of the integer' % seen, fn.where())
+    return n
+
+
 def hashed_data(rep, F, rule='HASH-FIELDS'):
     """necessary for agreement with ==: neither raw representation field is fed to the Hasher
     (scale and trailing zeros differ between equal values), and the hashed datum is computed from
@@ -75,5 +120,7 @@ def run(ctx):
     rep.floor('may-panic sites enumerated', n, 3)
     nh = hashed_data(rep, ctx.facts('default', 'rel'))
     rep.floor('hash field rules', nh, 2)
+    nz = zero_hashes_alike(rep, ctx.facts('default', 'rel'))
+    rep.floor('zero-hash rule', nz, 1)
     rep.assume('|scale| <= 10^5 (the property bounds scales because the hash materialises zeros)')
     rep.trust(common.TRUST_STD)
